@@ -438,6 +438,7 @@ void register_bdd_ops() {
 	register_op("bdd_binary", op_binary); register_op("bdd_trim", op_trim); register_op("bdd_to_td", op_to_td); register_op("bdd_reindex", op_reindex);
 	register_op("bdd_incl", op_incl);
 	register_abort_hook(abort_client); register_final_hook(final_check);
+	register_integrity_hook([](const std::string& oracle, const std::string& site) { check_all(oracle, site, "an unrelated call"); });
 }
 
 } // namespace vsim
